@@ -267,9 +267,9 @@ def post_flat(run, snap, res, args, kwargs):
 def attach_all(run, rt):
     from cnvlib.cnary import CopyNumArray as CNA
     import cnvlib.commands as K
-    traced = [("cnary.center_all", CNA.center_all), ("cnary.autosomes", CNA.autosomes), ("cnary.compare_sex_chromosomes", CNA.compare_sex_chromosomes),
-              ("cnary.guess_xx", CNA.guess_xx), ("cnary.shift_xx", CNA.shift_xx), ("cnary.expect_flat_log2", CNA.expect_flat_log2),
-              ("cnary.drop_low_coverage", CNA.drop_low_coverage), ("commands.do_sex", K.do_sex)]
+    traced = [("cnary.center_all", rt.opt(CNA, "center_all")), ("cnary.autosomes", rt.opt(CNA, "autosomes")), ("cnary.compare_sex_chromosomes", rt.opt(CNA, "compare_sex_chromosomes")),
+              ("cnary.guess_xx", rt.opt(CNA, "guess_xx")), ("cnary.shift_xx", rt.opt(CNA, "shift_xx")), ("cnary.expect_flat_log2", rt.opt(CNA, "expect_flat_log2")),
+              ("cnary.drop_low_coverage", rt.opt(CNA, "drop_low_coverage")), ("commands.do_sex", rt.opt(K, "do_sex"))]
     rt.attach(CNA, "center_all", name="CopyNumArray.center_all", pre=pre_center, post=post_center, on_exc=exc_center)
     rt.attach(CNA, "guess_xx", name="CopyNumArray.guess_xx", post=post_guess_xx)
     rt.attach(CNA, "compare_sex_chromosomes", name="CopyNumArray.compare_sex_chromosomes", post=post_compare)
